@@ -385,16 +385,16 @@ func (e *unmarkedEngine) deepUnmarked(v ssa.Value, seen map[ssa.Value]bool) bool
 // guardedByNotMarked: some block on the dominator chain ends in `if v.IsMarked()`
 // (on the same SSA value) and b lies under its false edge.
 func (e *unmarkedEngine) guardedByNotMarked(v ssa.Value, b *ssa.BasicBlock) bool {
-	for d := b; d != nil; d = d.Idom() {
-		idom := d.Idom()
-		if idom == nil {
-			break
+	for _, ce := range ctlEdges(b) {
+		cond, onTrue := ce.iff.Cond, ce.onTrue
+		for {
+			u, ok := cond.(*ssa.UnOp)
+			if !ok || u.Op != token.NOT {
+				break
+			}
+			cond, onTrue = u.X, !onTrue
 		}
-		iff, ok := idom.Instrs[len(idom.Instrs)-1].(*ssa.If)
-		if !ok {
-			continue
-		}
-		call, ok := iff.Cond.(*ssa.Call)
+		call, ok := cond.(*ssa.Call)
 		if !ok {
 			continue
 		}
@@ -405,8 +405,7 @@ func (e *unmarkedEngine) guardedByNotMarked(v ssa.Value, b *ssa.BasicBlock) bool
 		if !sameValue(call.Call.Args[0], v) {
 			continue
 		}
-		// d must be the false successor and only reachable through that edge.
-		if idom.Succs[1] == d && len(d.Preds) == 1 {
+		if !onTrue {
 			return true
 		}
 	}
